@@ -32,7 +32,7 @@ prop('C02', ['K5', 'K6', 'K2', 'D2', 'T2', 'M7', 'K4'],
      'discipline (K4).',
      ['equal dicts flatten equally for all inputs', 'None-removal law', 'predicate idempotence'])
 
-prop('C03', ['K1', 'K3', 'K4', 'K5', 'K7', 'K8', 'F1', 'F7', 'F10', 'T4'],
+prop('C03', ['K1', 'K3', 'K4', 'K5', 'K7', 'K8', 'M7', 'F1', 'F7', 'F10', 'T4'],
      'Sibling traversals agree, decided on the 5 x 11 arm matrix: per kind the same accessor on '
      'the same container class, the same key pipeline, the same arity source (K3); the same '
      'effective visiting order (K4); predicate first everywhere (K5); the same validations of a '
